@@ -1514,3 +1514,63 @@ void GOMP_task(void (*fn)(void *), void *data, void (*cpyfn)(void *, void *), lo
 }
 void GOMP_taskgroup_start(void) {}
 void GOMP_taskgroup_end(void) {}
+
+/* taskloop: the iteration space is cut into tasks as libgomp does (grainsize / num_tasks /
+ * one per team member) and every task is run undeferred by the encountering thread, with a
+ * scheduling point before each, so that the tasks of different encountering threads
+ * interleave under the seeded scheduler (and, in the trace build, at every access) */
+#define SIM_TASKLOOP(NAME, TYPE)                                                                   \
+    void NAME(void (*fn)(void *), void *data, void (*cpyfn)(void *, void *), long arg_size,        \
+              long arg_align, unsigned flags, unsigned long num_tasks, int priority, TYPE start,   \
+              TYPE end, TYPE step) {                                                               \
+        (void)priority;                                                                            \
+        unsigned long long n;                                                                      \
+        if (flags & (1u << 8)) { /* UP */                                                          \
+            if (start >= end)                                                                      \
+                return;                                                                            \
+            n = ((unsigned long long)(end - start) + (unsigned long long)step - 1) /               \
+                (unsigned long long)step;                                                          \
+        } else {                                                                                   \
+            if (start <= end)                                                                      \
+                return;                                                                            \
+            n = ((unsigned long long)(start - end) + (unsigned long long)(-step) - 1) /            \
+                (unsigned long long)(-step);                                                       \
+        }                                                                                          \
+        unsigned long long ntasks;                                                                 \
+        if (flags & (1u << 9)) { /* GRAINSIZE */                                                   \
+            unsigned long long grain = num_tasks ? num_tasks : 1;                                  \
+            ntasks = n / grain;                                                                    \
+            if (ntasks == 0)                                                                       \
+                ntasks = 1;                                                                        \
+        } else if (num_tasks == 0) {                                                               \
+            ntasks = g_team ? (unsigned long long)g_team->n : 1;                                   \
+        } else {                                                                                   \
+            ntasks = num_tasks;                                                                    \
+        }                                                                                          \
+        if (ntasks > n)                                                                            \
+            ntasks = n;                                                                            \
+        unsigned long long div = n / ntasks, mod = n % ntasks;                                     \
+        long al = arg_align > 0 ? arg_align : 16;                                                  \
+        char *buf = (char *)malloc((size_t)arg_size + (size_t)al);                                 \
+        char *arg = (char *)(((uintptr_t)buf + (uintptr_t)al - 1) & ~((uintptr_t)al - 1));        \
+        TYPE s0 = start;                                                                           \
+        for (unsigned long long t = 0; t < ntasks; t++) {                                          \
+            unsigned long long cnt = div + (t < mod ? 1 : 0);                                      \
+            TYPE e0 = s0 + (TYPE)cnt * step;                                                       \
+            if (g_team)                                                                            \
+                step_point(0);                                                                     \
+            if (cpyfn)                                                                             \
+                cpyfn(arg, data);                                                                  \
+            else                                                                                   \
+                memcpy(arg, data, (size_t)arg_size);                                               \
+            ((TYPE *)arg)[0] = s0;                                                                 \
+            ((TYPE *)arg)[1] = e0;                                                                 \
+            fn(arg);                                                                               \
+            s0 = e0;                                                                               \
+        }                                                                                          \
+        free(buf);                                                                                 \
+        if (g_team)                                                                                \
+            step_point(0);                                                                         \
+    }
+SIM_TASKLOOP(GOMP_taskloop, long)
+SIM_TASKLOOP(GOMP_taskloop_ull, unsigned long long)
